@@ -12,7 +12,53 @@ theorem parseTxn_ok_len {rest : Bytes} {pos : Nat} {t : FTxn} {precs : List (Nat
   unfold parseTxn at h
   simp only [] at h
   repeat' (split at h <;> try (simp at h))
-  trace_state
-  sorry
+  obtain ⟨_, _, h3⟩ := h
+  subst h3
+  constructor <;> omega
+
+theorem parseTxn_skip_len {rest : Bytes} {pos tid len : Nat}
+    (h : parseTxn rest pos = .skip tid len) : 8 ≤ len ∧ len ≤ rest.length := by
+  unfold parseTxn at h
+  simp only [] at h
+  repeat' (split at h <;> try (simp at h))
+  obtain ⟨_, h3⟩ := h
+  subst h3
+  constructor <;> omega
+
+/-- with more fuel than bytes left the scan never runs out of fuel -/
+theorem scan_fuel : ∀ (f f' : Nat) (rest : Bytes) (pos : Nat) (st : ScanState),
+    rest.length < f → rest.length < f' → scan f rest pos st = scan f' rest pos st := by
+  intro f
+  induction f with
+  | zero => intro f' rest pos st h; omega
+  | succ f ih =>
+    intro f' rest pos st h h'
+    cases f' with
+    | zero => omega
+    | succ f' =>
+      simp only [scan]
+      split <;> try rfl
+      · rename_i tid len heq
+        have := parseTxn_skip_len heq
+        exact ih f' _ _ _ (by simp; omega) (by simp; omega)
+      · rename_i t precs len heq
+        have := parseTxn_ok_len heq
+        exact ih f' _ _ _ (by simp; omega) (by simp; omega)
+
+/-- the accepted-transaction list is an accumulator only -/
+def ScanResult.withTxns (a : List FTxn) (r : ScanResult) : ScanResult := { r with txns := a ++ r.txns }
+
+theorem scan_txns : ∀ (f : Nat) (rest : Bytes) (pos : Nat) (ix : Index) (l : Nat) (a x : List FTxn),
+    scan f rest pos ⟨ix, l, a ++ x⟩ = (scan f rest pos ⟨ix, l, x⟩).map (ScanResult.withTxns a) := by
+  intro f
+  induction f with
+  | zero => intro rest pos ix l a x; simp [scan, Except.map, ScanResult.withTxns]
+  | succ f ih =>
+    intro rest pos ix l a x
+    simp only [scan]
+    split <;> try (simp [Except.map, ScanResult.withTxns])
+    · exact ih _ _ _ _ _ _
+    · simp only [ScanState.accept, List.append_assoc]
+      exact ih _ _ _ _ _ _
 
 end Proofs.Format
